@@ -55,3 +55,40 @@ def correspondence(ctx):
             rep["observed_order"] = si
             rep["reference_order"] = sm
             ctx.disagree(stream, "vcmp %s" % name, d["impl"], d["model"], in_dom, rep, spec=sm)
+    _derived_objects(ctx)
+
+
+def _derived_objects(ctx):
+    """a version object derived from another one (`attr.evolve(v, string=t)`, `copy.copy`, `copy.deepcopy`, a pickle round
+    trip) is ordered as the version its text says: exactly like the object the constructor builds from that text"""
+    import copy
+    import pickle
+    import attr
+    from harness import schemes as S
+    for name in A.ALL:
+        rng = ctx.rng("c03-derived", name)
+        cls = S.vclass(name)
+        pool = A.valid_pool(name, rng, 8)
+        stream = "derived:" + name
+        for (ta, a), (tb, b), (tc, c) in zip(pool, pool[1:], pool[2:]):
+            routes = [("attr.evolve(V(%r), string=%r)" % (ta, tb), lambda: attr.evolve(a, string=tb)),
+                      ("copy.copy(V(%r))" % tb, lambda: copy.copy(b)), ("copy.deepcopy(V(%r))" % tb, lambda: copy.deepcopy(b)),
+                      ("pickle round trip of V(%r)" % tb, lambda: pickle.loads(pickle.dumps(b)))]
+            for label, mk in routes:
+                ctx.count(stream, key=label, nontrivial=True, branch=label.split("(")[0])
+                try:
+                    d = mk()
+                except Exception:  # noqa: BLE001 — a route this class does not offer
+                    continue
+                try:
+                    same = (d == b) and not (d < b) and not (d > b) and str(d) == str(b)
+                    got = ((d < c), (d > c), (d == c), (c < d))
+                    want = ((b < c), (b > c), (b == c), (c < b))
+                except Exception as e:  # noqa: BLE001
+                    same, got, want = False, "raises %s" % type(e).__name__, "-"
+                if not same or got != want:
+                    ctx.disagree(stream, label, "equal to V(%r): %s; against V(%r): %s" % (tb, same, tc, got), "as V(%r): %s" % (tb, want), True,
+                                 {"scheme": name, "class": cls.__name__, "derived_by": label, "third_version": tc,
+                                  "clause": "a derived object is not ordered like the version its text says"}, spec="as the constructed version")
+                    break
+
